@@ -39,6 +39,7 @@
 EXTENDS XmlIO, Json
 
 CONSTANTS MaxChan, ShapeCodes, MaxPlace, Kinds, MaxFixed, MaxMeas, AllowZero,
+          Lean,               \* TRUE (quick tier): normfactor setting tied to the other choices, fixed flags in one measurement at a time
           ImplLumiAbs,        \* TRUE: writexml writes the absolute sigma as LumiRelErr (tree as read)
           ImplCacheStale,     \* TRUE: __FILECACHE__ keyed by path only, never invalidated (tree as read)
           Dirs, Versions, MaxDepth,
@@ -102,8 +103,10 @@ SetCode(S) == IF S = {} THEN 0 ELSE LET n == CHOOSE z \in S : TRUE IN NameRank(n
 
 -----------------------------------------------------------------------------
 (* conversion-layer state machine *)
-\* derived structure is computed once, by the action that finishes the workspace, and kept in `res`
-NoRes == [x |-> <<>>, back |-> <<>>, ix |-> <<>>, iback |-> <<>>, tw |-> <<>>, tback |-> <<>>, tiback |-> <<>>, tifix |-> <<>>]
+\* derived structure is computed once, by the action that finishes the workspace, and kept in `res`:
+\* the definition-layer document and re-import (replayed), the implementation-layer predictions, and the
+\* truth values of the invariants' bodies (sets of terms are compared here, not stored)
+NoRes == [x |-> <<>>, back |-> <<>>, impl |-> <<>>, ok |-> <<>>]
 HistIdle == fs = [d \in Dirs |-> NoFile] /\ cache = EmptyCache(Dirs) /\ hist = <<>>
 
 ConvInit ==
@@ -134,17 +137,32 @@ Measure(li, si, ni, F1, nm, F2) ==
   /\ phase = "mods"
   /\ (~HasLumiMod(ws)) => (li = 2 /\ si = 1)
   /\ Cardinality(F1) <= MaxFixed /\ Cardinality(F2) <= 1 /\ (nm = 1 => F2 = {})
-  /\ LET m1 == MkMeas(ws, "meas_one", "mu", LumiVals[li], LumiSigmas[si], NfCfgs[ni], F1)
-         m2 == MkMeas(ws, "second", IF "nf2" \in ParamNames(ws) THEN "nf2" ELSE "mu",
-                      LumiVals[(li % 3) + 1], LumiSigmas[3 - si], NfCfgs[ni], F2)
-         w == [ws EXCEPT !.meas = IF nm = 1 THEN <<m1>> ELSE <<m1, m2>>]
-         x == DefExport(w)
-         ix == ImplExport(w, ImplLumiAbs)
-         back == DefImport(x)
-         iback == ImplImport(ix)
-     IN /\ ws' = w
-        /\ res' = [x |-> x, back |-> back, ix |-> ix, iback |-> iback,
-                   tw |-> Terms(w), tback |-> Terms(back), tiback |-> Terms(iback), tifix |-> Terms(WithLumiSigmaOf(iback, w))]
+  /\ Lean => /\ ni = ((li + si + nm + SetCode(F1) + SetCode(F2) + last) % 3) + 1
+             /\ (F1 = {} \/ F2 = {})
+  \* every intermediate value is bound once (a LET would be re-evaluated at each use)
+  /\ \E m1 \in {MkMeas(ws, "meas_one", "mu", LumiVals[li], LumiSigmas[si], NfCfgs[ni], F1)} :
+     \E m2 \in {MkMeas(ws, "second", IF "nf2" \in ParamNames(ws) THEN "nf2" ELSE "mu",
+                        LumiVals[(li % 3) + 1], LumiSigmas[3 - si], NfCfgs[ni], F2)} :
+     \E w \in {[ws EXCEPT !.meas = IF nm = 1 THEN <<m1>> ELSE <<m1, m2>>]} :
+     \E x \in {DefExport(w)} : \E ix \in {ImplExport(w, ImplLumiAbs)} :            \* writexml
+     \E back \in {DefImport(x)} : \E iback \in {ImplImport(ix)} :                  \* readxml.parse
+     \E tw \in {Terms(w)} : \E haslumi \in {HasLumiMod(w)} : \E agrees \in {Terms(iback) = tw} :
+        /\ ws' = w
+        /\ res' = [x |-> x, back |-> back,
+                   impl |-> [relerr |-> [i \in DOMAIN w.meas |-> ix.meas[i].relerr], agrees |-> agrees,
+                             sigma |-> [i \in DOMAIN w.meas |-> ParOf(iback.meas[i], "lumi").sigmas[1]],
+                             parorder |-> [i \in DOMAIN w.meas |-> [j \in DOMAIN iback.meas[i].pars |-> iback.meas[i].pars[j].name]]],
+                   ok |-> [exportable |-> Exportable(w) /\ ~ImportRefuses(x) /\ ~ImportRefuses(ix),
+                           roundtrip |-> Terms(back) = tw,
+                           ionly |-> Terms(WithLumiSigmaOf(iback, w)) = tw,
+                           ilumi |-> haslumi =>
+                                      \A i \in DOMAIN w.meas :
+                                         LET lp == ParOf(w.meas[i], "lumi")  got == ParOf(iback.meas[i], "lumi") IN
+                                         /\ got.auxdata = lp.auxdata /\ got.inits = lp.auxdata
+                                         /\ got.sigmas = <<IF ImplLumiAbs THEN RMul(lp.auxdata[1], lp.sigmas[1]) ELSE lp.sigmas[1]>>,
+                           iagree |-> agrees <=> (~ImplLumiAbs \/ ~haslumi \/ \A i \in DOMAIN w.meas : ParOf(w.meas[i], "lumi").auxdata = <<ROne>>),
+                           ixml |-> /\ ix.channels = x.channels
+                                    /\ \A i \in DOMAIN x.meas : [ix.meas[i] EXCEPT !.relerr = x.meas[i].relerr] = x.meas[i]]]
   /\ phase' = "done"
   /\ h' = (h * 41 + li * 7 + si * 3 + ni * 5 + nm * 11 + SetCode(F1) * 17 + SetCode(F2) * 29) % 1000003
   /\ UNCHANGED <<last, np, fs, cache, hist>>
@@ -156,26 +174,14 @@ ConvNext ==
 ConvSpec == ConvInit /\ [][ConvNext]_vars
 
 Done == phase = "done"
-FamilyExportable == Done => Exportable(ws) /\ ~ImportRefuses(res.x) /\ ~ImportRefuses(res.ix)
-RoundTripDef == Done => res.tback = res.tw
-ImplOnlyLumiSigma == Done => res.tifix = res.tw
-ImplLumiPrediction ==
-  Done /\ HasLumiMod(ws) =>
-    \A i \in DOMAIN ws.meas :
-       LET lp == ParOf(ws.meas[i], "lumi")  got == ParOf(res.iback.meas[i], "lumi") IN
-       /\ got.auxdata = lp.auxdata /\ got.inits = lp.auxdata
-       /\ got.sigmas = <<IF ImplLumiAbs THEN RMul(lp.auxdata[1], lp.sigmas[1]) ELSE lp.sigmas[1]>>
-AllLumiOne == \A i \in DOMAIN ws.meas : ParOf(ws.meas[i], "lumi").auxdata = <<ROne>>
-ImplAgreesIffLumiOne == Done => ((res.tiback = res.tw) <=> (~ImplLumiAbs \/ ~HasLumiMod(ws) \/ AllLumiOne))
-ImplXmlSameButRelErr ==
-  Done => /\ res.ix.channels = res.x.channels
-          /\ \A i \in DOMAIN res.x.meas : [res.ix.meas[i] EXCEPT !.relerr = res.x.meas[i].relerr] = res.x.meas[i]
+FamilyExportable     == Done => res.ok.exportable
+RoundTripDef         == Done => res.ok.roundtrip      \* Terms(DefImport(DefExport(w))) = Terms(w)
+ImplOnlyLumiSigma    == Done => res.ok.ionly          \* Terms(impl round trip with sigma restored) = Terms(w)
+ImplLumiPrediction   == Done => res.ok.ilumi          \* impl round trip: auxdata = inits = Lumi, sigma = Lumi*sigma (ImplLumiAbs)
+ImplAgreesIffLumiOne == Done => res.ok.iagree         \* impl terms = terms  <=>  repaired \/ no lumi modifier \/ all Lumi = 1
+ImplXmlSameButRelErr == Done => res.ok.ixml           \* documents of both layers agree up to LumiRelErr
 
-ImplSigmas == [i \in DOMAIN ws.meas |-> ParOf(res.iback.meas[i], "lumi").sigmas[1]]
-ImplParOrder == [i \in DOMAIN ws.meas |-> [j \in DOMAIN res.iback.meas[i].pars |-> res.iback.meas[i].pars[j].name]]
-ConvCase == [layer |-> "conv", id |-> h, w |-> ws, xml |-> res.x, expect |-> res.back,
-             impl |-> [relerr |-> [i \in DOMAIN ws.meas |-> res.ix.meas[i].relerr], sigma |-> ImplSigmas,
-                       parorder |-> ImplParOrder, agrees |-> res.tiback = res.tw]]
+ConvCase == [layer |-> "conv", id |-> h, w |-> ws, xml |-> res.x, expect |-> res.back, impl |-> res.impl]
 ConvEmit == (EmitCases /\ Done /\ h % EmitMod = EmitRes) => PrintT(ToJson(ConvCase))
 
 -----------------------------------------------------------------------------
